@@ -56,17 +56,51 @@ def schema_names(case, b):
     return [n for n, _ in case.ast] if case.ast else []
 
 
+def make_short_name(path, long_name):
+    """schemaScanner.cc makeShortName(), used by the oracle only to decide whether two schemas of a file are *meant* to
+    collide (the Lean model has its own, tied by the byte comparison of CMakeLists.txt)"""
+    filename = path[path.rfind("/") + 1:] if "/" in path else path
+    if "." in filename:
+        filename = filename[:filename.rfind(".")]
+    dirname = path[:path.rfind("/")] if "/" in path else path
+    i = dirname.find("data")
+    if i < 0 or dirname[i + 4:i + 5] != "/":
+        dirname = ""
+    else:
+        dirname = dirname[dirname.rfind("/") + 1:]
+    if 2 < len(dirname) < len(filename):
+        filename = dirname
+    if len(long_name) < len(filename):
+        filename = long_name
+    return "sdai_" + filename
+
+
 # ---------------------------------------------------------------- the property oracle
 def oracle(case, res, names):
     """-> None or [(key, what), …].  Evaluates C17's statement on what the two real programs did."""
     dirs = res["dirs_out"]
     parsed = {d: G.parse_cmakelists(t) for d, t in res["cmakes"].items()}
     described = sorted(p["schema"] for p in parsed.values())
+    early = []
     if len(set(dirs)) != len(names) or described != sorted(names):
         lost = sorted(set(names) - set(described))
-        return [("shortname-collision",
-                 f"{len(names)} schemas {names} but {len(set(dirs))} distinct build directories {sorted(set(os.path.basename(d) for d in dirs))}; "
-                 f"no build description survives for {lost}")]
+        # decided from the input (file path + schema names), not from the symptom: a collision is when makeShortName maps
+        # two schemas of the file to one name
+        shorts = {n: make_short_name(res["exp"], n) for n in names}
+        colliding = sorted(n for n in names if sum(1 for m in names if shorts[m] == shorts[n]) > 1)
+        if colliding:
+            early.append(("shortname-collision",
+                          f"schemas {colliding} of one file all get the build directory {sorted(set(shorts[n] for n in colliding))}; "
+                          f"{len(names)} schemas, {len(set(dirs))} distinct directories printed; no build description survives for {lost}"))
+        for n in lost:
+            if n in colliding:
+                continue
+            mine = sorted(f for f in res["created"] if re.match(r"Sdai" + re.escape(n.upper()) + r"(Names\.h|\.h|\.cc|\.init\.cc|_\d+\.|_unity_)", f))
+            if mine:
+                early.append(("schema-has-files-but-no-build-description",
+                              f"the scanner emitted no CMakeLists.txt for schema {n} although exp2cxx creates {mine[:6]}… for it: the generated code is left out of every library"))
+        if early and any(k == "shortname-collision" for k, _ in early):
+            return early
     for d, p in parsed.items():
         if not (p["project"] == p["short"] == d and os.path.join(res["sc_dir"], d) in dirs):
             return [("dir-project-mismatch", f"directory {d}, PROJECT({p['project']}), short name {p['short']}, stdout {dirs}")]
@@ -80,13 +114,20 @@ def oracle(case, res, names):
         if m:
             missing[p["schema"]] = m
     unlisted = sorted(f for f in created - listed_all if not UNITY_H.search(f))
+    if not parsed:
+        # no schema of the file gets a build description and none has per-schema files: nothing is to be built, the
+        # per-file files (schema.h, SdaiAll.cc …) are not part of any library
+        unlisted = [f for f in unlisted if f not in ("SdaiAll.cc", "Sdaiclasses.h", "compstructs.cc", "schema.cc", "schema.h")]
     if not missing and not unlisted:
-        return None
+        return early or None
     allm = sorted(x for v in missing.values() for x in v)
     # Decompose the mismatch into the known shapes, schema by schema (several may occur in one file); whatever is not
     # explained by them is reported under a key that names the *shape* of the remaining failure.
-    found = []
+    found = list(early)
     rest_m, rest_u = set(allm), set(unlisted)
+    for n in names:      # files of a schema that has no build description were reported above
+        if n not in described:
+            rest_u -= {f for f in rest_u if re.match(r"Sdai" + re.escape(n.upper()) + r"(Names\.h|\.h|\.cc|\.init\.cc|_\d+\.|_unity_)", f)}
     empty = [n for n, ds in (case.ast or []) if not any(l.startswith(("ent ", "type ")) for l in ds)]
     for n in names:
         u = re.escape(n.upper())
@@ -326,6 +367,37 @@ def renamed_in_select_cases(ctx, n):
     return out
 
 
+def shape_cases(ctx, quick):
+    """type-only schemas (each kind of defined type alone, a vocabulary schema) and long-but-legal identifiers
+    (60..200 characters, singly and in pairs) for every declaration kind"""
+    out = []
+    for label, f in SG.type_only_schemas():
+        out.append(Case("type-only:" + label, f.text(), "type_only_" + label + "_schema_file", ast=G.ast_from_gen(f), gen=f))
+    r = ctx.rng
+    kinds = ["enum", "select", "entity", "simple", "agg", "renamed_enum", "function", "schema"]
+    singles = [(60,), (100,), (113,), (114,), (115,), (120,), (160,), (199,), (200,)]
+    pairs = [(100, 115), (110, 120), (60, 170), (115, 116), (200, 200)]
+    combos = [(k, ls) for k in kinds for ls in singles + pairs]
+    if quick:       # every kind at the extremes, plus a random sample of the rest
+        keep = [(k, ls) for k, ls in combos if ls in ((120,), (200,), (100, 115), (200, 200))]
+        rest = [c for c in combos if c not in keep]
+        combos = keep + r.sample(rest, 16)
+    else:
+        combos += [(k, (r.randint(60, 200),)) for k in kinds for _ in range(6)] + [(k, (r.randint(60, 200), r.randint(60, 200))) for k in kinds for _ in range(6)]
+    done = set()
+    for k, ls in combos:
+        # the order in which the programs ask for the names is a hash order of the names: vary the filler letter, and
+        # for the kinds whose names become file names take all four fillers for the pairs
+        fills = "qxyz" if (len(ls) == 2 and k in ("enum", "select", "renamed_enum")) else r.choice("qxyz")
+        for fill in fills:
+            if (k, ls, fill) in done:
+                continue
+            done.add((k, ls, fill))
+            f = SG.long_identifier_schema(k, ls, filler=fill)
+            out.append(Case(f"long-identifier:{k}:{'+'.join(map(str, ls))}:{fill}", f.text(), "long_identifier_schema_file", ast=G.ast_from_gen(f), gen=f))
+    return out
+
+
 def shipped_cases(b, quick):
     data = os.path.join(b.src, "data")
     files = sorted(glob.glob(os.path.join(data, "*", "*.exp"))) + sorted(glob.glob(os.path.join(b.src, "test", "unitary_schemas", "*.exp")))
@@ -348,6 +420,16 @@ def examine(ctx, b, case, model_exe, idx):
             ctx._disagree.append((case.name, f"exp2cxx refuses the input (rc={res['cx_rc']}) but the model answers {out[-1:] }", None))
         shutil.rmtree(root, ignore_errors=True)
         return
+    if (res["sc_rc"] == 0) != (res["cx_rc"] == 0) and len(ctx.violations) < 3:
+        # one program accepts the file and the other does not: the scanner promises a build the generator cannot deliver
+        # (or the generator's output is never built).  (Inputs exp2cxx must refuse by its documented identifier gate are
+        # handled above and never reach this point.)
+        who = "schema_scanner exits 0 and writes a build description, exp2cxx fails" if res["sc_rc"] == 0 else "exp2cxx exits 0, schema_scanner fails"
+        ctx.violation("acceptance-mismatch:" + ("scanner-only" if res["sc_rc"] == 0 else "generator-only"),
+                      f"[{case.name}] {who} (scanner rc={res['sc_rc']}, exp2cxx rc={res['cx_rc']}: {(res['cx_err'] if res['sc_rc'] == 0 else res['sc_err'])[-160:].strip()!r})",
+                      {"file_name": os.path.join(case.subdir, case.stem + ".exp") if not case.exp_path else case.exp_path,
+                       "express": case.text if case.text is not None else f"<shipped file {case.exp_path}>",
+                       "how": "run schema_scanner and exp2cxx on the file, each in an empty directory, and compare the exit status"})
     if not res["accepted"]:
         if case.exp_path is None:
             ctx.hist("inputs", "generated-but-rejected")
@@ -363,7 +445,9 @@ def examine(ctx, b, case, model_exe, idx):
     names = schema_names(case, b)
     ctx.count(1, key=case.name if case.exp_path else case.text)
     ctx.hist("inputs", "shipped" if case.exp_path else ("generated" if case.gen is not None and case.name.startswith("gen-") else
-                                                          "renamed-in-select" if case.name.startswith("renamed-in-select") else "fixed"))
+                                                          "renamed-in-select" if case.name.startswith("renamed-in-select") else
+                                                          "type-only" if case.name.startswith("type-only") else
+                                                          "long-identifier" if case.name.startswith("long-identifier") else "fixed"))
     ctx.hist("schemas-per-file", str(min(len(names), 4)) + ("+" if len(names) >= 4 else ""))
     if case.gen is not None:
         for ft in case.gen.features():
@@ -427,6 +511,7 @@ def run(ctx):
         cases.append(Case("corpus:" + os.path.basename(p), d["express"], d.get("stem", "schema"), d.get("subdir", ""),
                           ast=[(n, ds) for n, ds in d["ast"]]))
     cases += fixed_cases()
+    cases += shape_cases(ctx, quick)
     cases += renamed_in_select_cases(ctx, 40 if quick else 400)
     cases += generated_cases(ctx, 40 if quick else 300)
     cases += shipped_cases(b, quick)
@@ -438,7 +523,7 @@ def run(ctx):
     ctx.cov["rule"] = ("per input file: CMakeLists.txt of every schema byte-compared with the model, stdout directory lines, the set of files "
                        "exp2cxx created vs the model (pass suffixes predicted when no cross-schema dependency, observed otherwise); "
                        "fixed inputs cover every defined-type shape incl. renamed enum/select, the three known defect shapes and exp2cxx's identifier-length gate (232 refused, 200 accepted); "
-                       "renamed enumerations/selects reached from selects (item, attribute of an entity item, aggregate, inherited) under 40/400 identifier permutations; generated: 1-3 schemas per file, REFERENCE FROM, mixed-case and case-colliding identifiers, file names/dirs exercising makeShortName")
+                       "type-only schemas (each defined-type kind alone), identifiers of 60..200 characters singly/in pairs for every declaration kind; renamed enumerations/selects reached from selects (item, attribute of an entity item, aggregate, inherited) under 40/400 identifier permutations; generated: 1-3 schemas per file, REFERENCE FROM, mixed-case and case-colliding identifiers, file names/dirs exercising makeShortName")
     if cases:
         ctx.sample({"input": cases[0].name, "express_head": (cases[0].text or "")[:300]})
     gen = [c for c in cases if c.name.startswith("gen-")]
